@@ -1122,6 +1122,8 @@ def render_unit(idx, tmpl_path, root, must_fail=False, params=None):
                     if depth == 1 and x in ("{", ",") and k2 + 1 < len(strs) and strs[k2 + 1] not in ("pub", "}"):
                         res.append("pub")
                 strs = res
+            if m.group(2) == "struct" and strs and strs[0] == "struct":
+                strs = ["pub"] + strs          # R5: visibility only
             if m.group(2) == "const":
                 # R19: a module-level const table is an `exec const` for Verus (mode annotation only; initialiser verbatim)
                 k0 = strs.index("const")
